@@ -59,7 +59,7 @@ def configs(tier):
     thorough adds a 4th path to that, and 4 mappings: all subsets over 3 paths, and all 7
     paths over 2 complementary subsets."""
     c = {"maps3-paths3-allopts": consts((1, 2, 4), 3, "all"),
-         "maps2-paths7": consts((1, 2, 3, 4, 5, 6, 7), 2, 2, statms=(1, 2, 3), totals=(50000, 7777))}
+         "maps2-paths7": consts((1, 2, 3, 4, 5, 6, 7), 2, 2, statms=(1, 2, 3), totals=(50000, 7))}
     if tier == "thorough":
         c["maps3-paths4-allopts"] = consts((1, 2, 3, 4), 3, "all")
         c["maps4-paths3-allopts"] = consts((1, 2, 4), 4, "all")
@@ -287,7 +287,9 @@ def random_input(rnd):
     else:
         statm = [0] * 7
         rollup = rnd.choice(["enoent", "esrch"])
-    return {"statm": statm, "maps": maps, "rollup": rollup, "total": rnd.randint(20000, 60000)}
+    return {"statm": statm, "maps": maps, "rollup": rollup,
+            # (a process may map, reserve or swap more than the machine has: vms, data, swap)
+            "total": rnd.choice([rnd.randint(20000, 60000), rnd.randint(20000, 60000), rnd.randint(4, 400)])}
 
 
 def _unscale(v, S):
